@@ -128,6 +128,24 @@ def make_fn(tier, max_all=6, big_size=2):
             apply_op(t, {}, pre_op)
             apply_op(t, {}, op)
             second_in_batch[op] = (allowed2, state_of(t), pre_op)
+        if prune:
+            # nothing is absent and the trie was re-opened the documented way (regenerated reference counts): no call may
+            # report a missing node, and a "missing" hash that IS in the database would send a retry loop round in circles
+            for op, _ in muts:
+                o.evals += 1
+                t = HexaryTrie(dict(db), bytes(bytearray(root)), prune=True, ref_count=complete.regenerate_ref_count())
+                try:
+                    apply_op(t, {}, op)
+                    if t.root_hash != mut_complete[op][0]:
+                        o.viol("C07", "wrong_result", "a re-opened pruning trie gives another root than the original object", call=op[0], key=op[1])
+                        break
+                except (MissingTrieNode, MissingTraversalNode) as e:
+                    o.viol("C07", "missing_hash_not_absent", "a missing node was reported although no node body is absent (trie re-opened with regenerated "
+                           "reference counts)", call=op[0], key=op[1], reported=bytes(e.missing_node_hash))
+                    break
+                except Exception as e:  # noqa
+                    o.viol("C07", "other_exception", f"{op[0]} on a re-opened pruning trie raised {type(e).__name__}", call=op[0], key=op[1], exc=repr(e)[:120])
+                    break
         paths = set()
         for k in model:
             kn = mpt.nib(k)
